@@ -566,12 +566,43 @@ func r117(c *Ctx) {
 				return
 			}
 			n++
-			var nonNil func(v ssa.Value, d int) bool
-			nonNil = func(v ssa.Value, d int) bool {
+			var nonNilAt func(v ssa.Value, d int, b *ssa.BasicBlock, fn *ssa.Function, at ssa.Instruction) bool
+			nonNil := func(v ssa.Value, d int) bool { return nonNilAt(v, d, b, fn, mi) }
+			nonNilAt = func(v ssa.Value, d int, b *ssa.BasicBlock, fn *ssa.Function, at ssa.Instruction) bool {
+				nonNil := func(v ssa.Value, d int) bool { return nonNilAt(v, d, b, fn, at) }
 				if d > 5 {
 					return false
 				}
 				switch x := v.(type) {
+				case *ssa.Parameter:
+					// a helper's parameter: non-nil when the argument is, at every live (direct) call
+					hf := x.Parent()
+					idx := -1
+					for i, q := range hf.Params {
+						if q == x {
+							idx = i
+						}
+					}
+					if idx < 0 || (hf.Object() != nil && hf.Object().Exported()) {
+						return false
+					}
+					kg := p.KG()
+					live, _ := kg.Live()
+					nCalls := 0
+					for _, e := range kg.In[hf] {
+						if !live[e.Caller] {
+							continue
+						}
+						ci, isCall := e.Site.(ssa.CallInstruction)
+						if e.Kind != "static" || !isCall || idx >= len(ci.Common().Args) {
+							return false
+						}
+						nCalls++
+						if !nonNilAt(ci.Common().Args[idx], d+1, e.Site.Block(), e.Caller, e.Site) {
+							return false
+						}
+					}
+					return nCalls > 0
 				case *ssa.Alloc, *ssa.FieldAddr, *ssa.IndexAddr, *ssa.MakeInterface:
 					return true
 				case *ssa.Phi:
@@ -630,7 +661,7 @@ func r117(c *Ctx) {
 										before = true
 										break
 									}
-									if i2 == ssa.Instruction(mi) {
+									if i2 == at {
 										break
 									}
 								}
@@ -786,6 +817,39 @@ func r118(c *Ctx) {
 					if call, ok := v.(*ssa.Call); ok && !truth {
 						if obj := core.CalleeObj(&call.Call); obj != nil && (obj.Name() == "match" || obj.Name() == "matchIf" || obj.Name() == "matchPropertyAccess") {
 							okErr = true // a failed match has recorded the error
+						}
+					}
+					// a predicate of the parser that records the error itself whenever it answers this
+					// way (the nesting guard extracted into `if p.nestingExhausted(depth) { return nil }`)
+					if call, ok := v.(*ssa.Call); ok && !okErr {
+						if h := call.Call.StaticCallee(); h != nil && h.Blocks != nil && core.FuncPkg(h) != nil && core.FuncPkg(h).Path() == pkgPath && core.BoolType(call.Type()) {
+							res := core.PathCount(h, func(ins ssa.Instruction) int {
+								if recordsError(ins) {
+									return 1
+								}
+								return 0
+							}, nil, nil)
+							all, nRet := true, 0
+							for ret, iv := range res {
+								if len(ret.Results) != 1 {
+									all = false
+									continue
+								}
+								k, isK := ret.Results[0].(*ssa.Const)
+								if !isK || k.Value == nil {
+									all = false // not a constant answer: cannot tell which paths give it
+									continue
+								}
+								if (k.Value.String() == "true") == truth {
+									nRet++
+									if iv.Lo < 1 {
+										all = false
+									}
+								}
+							}
+							if all && nRet > 0 {
+								okErr = true
+							}
 						}
 					}
 					if u, ok := v.(*ssa.UnOp); ok && u.Op == token.MUL && truth {
